@@ -80,6 +80,7 @@ bool Tracing();
 int TimersFired();
 // Declares [p, p+n) dead: any later atomic/mutex event inside it is a violation of `oracle`.
 void DeadRegion(const void* p, std::size_t n, const char* oracle);
+void ClearDeadRegions();
 // Allocation ledger: number of operator new calls since the execution started (engine excluded).
 std::uint64_t AllocCount();
 // Live blocks allocated during this execution.
